@@ -16,4 +16,70 @@ theorem isEmpty_perm {α : Type} {l₁ l₂ : List α} (h : l₁ ~ l₂) : l₁.
   have := h.length_eq
   cases l₁ <;> cases l₂ <;> simp_all
 
+theorem contains_perm {l₁ l₂ : List Key} (h : l₁ ~ l₂) (k : Key) : l₁.contains k = l₂.contains k := by
+  cases h1 : l₁.contains k <;> cases h2 : l₂.contains k <;> simp_all [h.mem_iff]
+
+theorem okeys_entries : ∀ t : JTree, (entries t).map Prod.fst = okeys t
+  | .ocons k kj v r => by simp [entries, okeys, okeys_entries r]
+  | .leaf _ | .onil => by simp [entries, okeys]
+
+theorem emit_obj : ∀ t : JTree, t.isObj = true → t.emit = jsonObject (entries t)
+  | .onil, _ => by simp [JTree.emit, entries]
+  | .ocons k kj v r, _ => by simp [JTree.emit, entries]
+  | .leaf _, h => by simp [JTree.isObj] at h
+
+theorem wf_ocons (k : Key) (kj : Bytes) (v r : JTree) :
+    (JTree.ocons k kj v r).wf = true ↔ v.wf = true ∧ r.wf = true ∧ r.isObj = true ∧ k ∉ okeys r := by
+  simp [JTree.wf, and_assoc]
+
+theorem nodup_okeys : ∀ t : JTree, t.wf = true → (okeys t).Nodup
+  | .ocons k kj v r, h => by
+    obtain ⟨_, hr, _, hk⟩ := (wf_ocons k kj v r).mp h
+    simp only [okeys, nodup_cons]
+    exact ⟨hk, nodup_okeys r hr⟩
+  | .leaf _, _ | .onil, _ => by simp [okeys]
+
+theorem emit_eq_of_entries_perm {a b : JTree} (ha : a.isObj = true) (hb : b.isObj = true)
+    (hw : a.wf = true) (hp : entries a ~ entries b) : a.emit = b.emit := by
+  rw [emit_obj _ ha, emit_obj _ hb]
+  unfold jsonObject
+  rw [sortK_eq_of_perm hp (by rw [okeys_entries]; exact nodup_okeys _ hw)]
+
+/-- reordering preserves well-formedness, object-ness, the emitted bytes and
+(up to permutation) the emitted entries -/
+theorem reorder_aux {a b : JTree} (h : JTree.Reorder a b) : a.wf = true →
+    b.wf = true ∧ b.isObj = a.isObj ∧ a.emit = b.emit ∧ entries a ~ entries b := by
+  induction h with
+  | refl t => exact fun hw => ⟨hw, rfl, rfl, Perm.refl _⟩
+  | swap k kj v k' kj' v' r =>
+    intro hw
+    obtain ⟨hv, hr1, _, hk⟩ := (wf_ocons _ _ _ _).mp hw
+    obtain ⟨hv', hr, hro, hk'⟩ := (wf_ocons _ _ _ _).mp hr1
+    simp only [okeys, mem_cons, not_or] at hk
+    have hp : entries (.ocons k kj v (.ocons k' kj' v' r)) ~ entries (.ocons k' kj' v' (.ocons k kj v r)) := by
+      simp only [entries]; exact Perm.swap _ _ _
+    have hw2 : (JTree.ocons k' kj' v' (.ocons k kj v r)).wf = true := by
+      rw [wf_ocons, wf_ocons]
+      refine ⟨hv', ⟨hv, hr, hro, hk.2⟩, rfl, ?_⟩
+      simp only [okeys, mem_cons, not_or]
+      exact ⟨fun h => hk.1 h.symm, hk'⟩
+    exact ⟨hw2, rfl, emit_eq_of_entries_perm rfl rfl hw hp, hp⟩
+  | @congr k kj v v' r r' hv hr ihv ihr =>
+    intro hw
+    obtain ⟨hwv, hwr, hro, hk⟩ := (wf_ocons _ _ _ _).mp hw
+    obtain ⟨wv', _, ev, _⟩ := ihv hwv
+    obtain ⟨wr', or', _, pr⟩ := ihr hwr
+    have hkeys : okeys r ~ okeys r' := by
+      rw [← okeys_entries, ← okeys_entries]; exact pr.map Prod.fst
+    have hp : entries (.ocons k kj v r) ~ entries (.ocons k kj v' r') := by
+      simp only [entries, ev]; exact Perm.cons _ pr
+    have hw2 : (JTree.ocons k kj v' r').wf = true :=
+      (wf_ocons _ _ _ _).mpr ⟨wv', wr', or'.trans hro, fun h => hk (hkeys.symm.mem_iff.mp h)⟩
+    exact ⟨hw2, rfl, emit_eq_of_entries_perm rfl rfl hw hp, hp⟩
+  | trans _ _ ih1 ih2 =>
+    intro hw
+    obtain ⟨w1, o1, e1, p1⟩ := ih1 hw
+    obtain ⟨w2, o2, e2, p2⟩ := ih2 w1
+    exact ⟨w2, o2.trans o1, e1.trans e2, p1.trans p2⟩
+
 end Martian.Determinism
